@@ -724,50 +724,64 @@ func everyEntryConsidered(w *World, r *Report, rule string, fn *ssa.Function, mu
 		}
 	}
 	skipped, dropped := 0, 0
-	isVerify := passesDeep(fn, idRes, func(in ssa.Instruction, _ resolver) bool {
+	isVerifyCall := func(in ssa.Instruction, _ resolver) bool {
 		c, ok := in.(ssa.CallInstruction)
 		return ok && strings.HasSuffix(calleeName(c), ").Verify")
-	}, 1)
+	}
+	isVerify0 := passesDeep(fn, idRes, isVerifyCall, 1)
 	verifyOK := deepEdges(fn, idRes, callSpec(").Verify", "errnil", nil), 1)
-	if hdr != nil && len(hdr.Succs) == 2 {
-		_ = okv
-		// malformed-element skips: edges carrying a nil/len fact about the ranged member that lead back to the header,
-		// or the outcome of a helper that only looks at the shape of the member (nil-ness, field lengths)
-		isMalformedEdge := func(e Edge) bool {
-			for _, ft := range edgeFacts(e) {
-				if ft.kind == fIsNil && strings.HasPrefix(pathOf(ft.x), member) {
-					return true
-				}
-				if ft.kind == fTrue || ft.kind == fFalse {
-					if c, ok := strip(ft.x).(*ssa.Call); ok {
-						if h := samePkgHelper(fn, c); h != nil && len(c.Call.Args) > 0 && isShapePredicate(h) {
-							for _, a := range c.Call.Args {
-								if pathOf(a) == member {
-									return true
-								}
-							}
-						}
-					}
-				}
+	// a bool helper that decides one entry — `if g.gossiperVerifies(hash, member) { set[...] = member }` — stands for the
+	// verification when it says true only behind a successful Verify and says false without verifying only for a
+	// malformed entry
+	deciders := map[ssa.Instruction]bool{}
+	instrsOf(fn, func(in ssa.Instruction) {
+		c, ok := in.(*ssa.Call)
+		if !ok {
+			return
+		}
+		h := samePkgHelper(fn, c)
+		if h == nil || h.Signature.Results().Len() != 1 || !isBoolType(h.Signature.Results().At(0).Type()) {
+			return
+		}
+		hm := ""
+		for k, a := range c.Call.Args {
+			if pathOf(a) == member && k < len(h.Params) {
+				hm = h.Params[k].Name()
 			}
-			iff, ok := e.From.Instrs[len(e.From.Instrs)-1].(*ssa.If)
-			if ok {
-				for _, lf := range lenFactsOf(iff.Cond, e.Idx != 0) { // the edge on which the length test FAILED
-					if strings.HasPrefix(lf.path, member) {
-						return true
-					}
-				}
+		}
+		if hm == "" {
+			return
+		}
+		hOK := deepEdges(h, idRes, callSpec(").Verify", "errnil", nil), 1)
+		if len(hOK) == 0 {
+			return
+		}
+		for _, ret := range returnsOf(h) {
+			if mayReturnBool(ret, true) && !behind(ret, hOK) {
+				return
+			}
+		}
+		hVerify := passesDeep(h, idRes, isVerifyCall, 1)
+		missed := 0
+		walkFrom(nil, h.Blocks[0], edgeSet(malformedEdges(h, hm)), func(x ssa.Instruction) bool {
+			if hVerify(x) {
+				return true
+			}
+			if _, isRet := x.(*ssa.Return); isRet {
+				missed++
+				return true
 			}
 			return false
+		})
+		if missed == 0 {
+			deciders[c] = true
+			verifyOK = append(verifyOK, passBool(c, 0, true)...)
 		}
-		var cut []Edge
-		for _, blk := range fn.Blocks {
-			for i := range blk.Succs {
-				if isMalformedEdge(Edge{blk, i}) {
-					cut = append(cut, Edge{blk, i})
-				}
-			}
-		}
+	})
+	isVerify := func(x ssa.Instruction) bool { return isVerify0(x) || deciders[x] }
+	if hdr != nil && len(hdr.Succs) == 2 {
+		_ = okv
+		cut := malformedEdges(fn, member)
 		walkFrom(nil, hdr.Succs[0], edgeSet(cut), func(x ssa.Instruction) bool {
 			if isVerify(x) {
 				return true
@@ -1299,4 +1313,46 @@ func branchChangesEffects(at ssa.Instruction) bool {
 		return strings.Join(parts, ",")
 	}
 	return sig(b.Succs[0]) != sig(b.Succs[1])
+}
+
+
+// malformedEdges: the edges of fn taken because the entry named member is malformed — nil, a wrong field length, or
+// the verdict of a helper that only looks at the shape of the entry.
+func malformedEdges(fn *ssa.Function, member string) []Edge {
+	isMalformedEdge := func(e Edge) bool {
+		for _, ft := range edgeFacts(e) {
+			if ft.kind == fIsNil && strings.HasPrefix(pathOf(ft.x), member) {
+				return true
+			}
+			if ft.kind == fTrue || ft.kind == fFalse {
+				if c, ok := strip(ft.x).(*ssa.Call); ok {
+					if h := samePkgHelper(fn, c); h != nil && len(c.Call.Args) > 0 && isShapePredicate(h) {
+						for _, a := range c.Call.Args {
+							if pathOf(a) == member {
+								return true
+							}
+						}
+					}
+				}
+			}
+		}
+		iff, ok := e.From.Instrs[len(e.From.Instrs)-1].(*ssa.If)
+		if ok {
+			for _, lf := range lenFactsOf(iff.Cond, e.Idx != 0) { // the edge on which the length test FAILED
+				if strings.HasPrefix(lf.path, member) {
+					return true
+				}
+			}
+		}
+		return false
+	}
+	var cut []Edge
+	for _, blk := range fn.Blocks {
+		for i := range blk.Succs {
+			if isMalformedEdge(Edge{blk, i}) {
+				cut = append(cut, Edge{blk, i})
+			}
+		}
+	}
+	return cut
 }
